@@ -671,6 +671,10 @@ class Style:
 
 
 NO_TRAILING_COMMENT = ('str', 'gap', 'incbytes', 'raw')
+# comment texts: anything may follow the '#', in particular characters that mean something elsewhere on a line
+WHOLE_COMMENTS = ['# note', '# x1, x2', '# string hello', '# L: addi', "# it's (paren", "#'quoted'", '#', '##', '#,', '# K = 5', '#:', '#\t tab',
+                  '# error no', '#include x', '# 0x10 )', '#"dq"', "# '#'", '#=']
+TRAIL_COMMENTS = ['  # trailing', ' #x', '\t# a, b (c)', '#tight', " #'spin'", " # it's", ' ##', ' #,', ' # )', ' #(', ' # 1 + 2', ' #:', " #'", ' # = 4']
 
 
 def render(items, style=None):
@@ -685,14 +689,14 @@ def render(items, style=None):
             lines.append('' if st._h(2, 'blankws') else '   ')
         if st.on('comment') and st._h(7, 'wcomment') == 0:
             st.used.add('comment')
-            lines.append(st.indent() + '# ' + ['note', 'x1, x2', 'string hello', 'L: addi', "it's (paren"][st._h(5, 'ctext')])
+            lines.append(st.indent() + WHOLE_COMMENTS[st._h(len(WHOLE_COMMENTS), 'ctext')])
         st.lineno = len(lines) + 1
         text = it.render(st)
         if it.kind == 'label' or it.kind == 'const':
             text = st.indent() + text
         if st.on('comment') and it.kind not in NO_TRAILING_COMMENT and st._h(4, 'tcomment') == 0:
             st.used.add('comment')
-            text += ['  # trailing', ' #x', '\t# a, b (c)', '#tight'][st._h(4, 'tctext')]
+            text += TRAIL_COMMENTS[st._h(len(TRAIL_COMMENTS), 'tctext')]
         lines.append(text)
         line_of.append(len(lines))
     return '\n'.join(lines) + '\n', line_of
